@@ -5,5 +5,6 @@ CONSTANTS
   Alphabet <- NoKinds
   Kinds <- NoKinds
   EmptyLine <- EmptyTuple
+  Part = 0
   Edits = FALSE
 CHECK_DEADLOCK FALSE
